@@ -112,7 +112,7 @@ def run_case(case: dict[str, Any]) -> dict[str, Any]:  # noqa: C901, PLR0912, PL
     start_user = np.array(case["start"] if case["start"] is not None else case["x0"], dtype=np.float64)
     start_opt = start_user if transforms is None else transforms.variables.to_optimizer(start_user)
     # expected fixed values (user domain), updated while nested runs proceed
-    state = {"outer_fixed": start_user.copy(), "inner_fixed": None, "inner_runs": 0}
+    state: dict[str, Any] = {"outer_fixed": start_user.copy(), "inner_fixed": None, "inner_runs": 0, "seen": {}}
     expectations: list[tuple[str, np.ndarray]] = []  # per evaluator call: (who, expected full user vector of fixed entries)
 
     def hook(call: int, variables: np.ndarray, context: Any) -> None:  # noqa: ANN401, ARG001
@@ -135,11 +135,16 @@ def run_case(case: dict[str, Any]) -> dict[str, Any]:  # noqa: C901, PLR0912, PL
                   f"optimizer does not own, the value last delivered is {state['outer_fixed'][~free].tolist()}", case)
             state["inner_fixed"] = np.array(user, dtype=np.float64)
             state["inner_runs"] += 1
-            plan.set(inner_tracker, "results", None)
+            if not case.get("keep_inner_best"):  # (otherwise the tracker may hand back the very same result object again)
+                plan.set(inner_tracker, "results", None)
             plan.run_step(inner_step, config=inner_cfg, transforms=transforms, variables=variables)
             res = plan.get(inner_tracker, "results")
             if res is not None:
-                state["outer_fixed"] = np.array(res.evaluations.variables, dtype=np.float64)
+                first = state["seen"].setdefault(id(res), (res, np.array(res.evaluations.variables, dtype=np.float64)))
+                check(bool(np.array_equal(first[1], np.asarray(res.evaluations.variables))), "delivered-result-changed",
+                      f"the result held by the inner tracker showed variables {first[1].tolist()} when it was first delivered and shows "
+                      f"{np.asarray(res.evaluations.variables).tolist()} now", case)
+                state["outer_fixed"] = first[1].copy()
             return res
 
         inner_plan.add_function(inner_fn)
@@ -214,12 +219,16 @@ def exhaustive_shard(item: dict[str, Any]) -> Collector:
         if not any(mask):
             continue
         for method in METHODS:
-            variants = [("config", False), ("argument", False)]
+            variants = [("config", False, False), ("argument", False, False)]
             if method in ("slsqp", "nelder-mead") and not all(mask):
-                variants += [("config", True), ("argument", True)]
-            for start_mode, nested in variants:
+                variants += [("config", True, False), ("argument", True, False), ("config", True, True), ("argument", True, True)]
+            for start_mode, nested, scaled_nested in variants:
                 case = default_case(n, None if all(mask) and item["none_for_all"] else list(mask), method, start_mode)
                 case["nested"] = nested
+                if scaled_nested:  # nested plan under a VariableScaler, the inner tracker keeps its best result between the inner runs
+                    case["vscale"] = [2.0, 0.5, 4.0, 3.0][:n]
+                    case["voff"] = [0.1, 0.0, -0.3, 0.2][:n]
+                    case["keep_inner_best"] = True
                 case["mask_kind"] = ("list", "int-array", "bool-array", "int-list", "tuple")[(sum(mask) + len(method) + nested) % 5]
                 case["budget"] = 3 if nested else 5
                 info: dict[str, Any] = {}
@@ -229,9 +238,9 @@ def exhaustive_shard(item: dict[str, Any]) -> Collector:
 
                 guard_call(col, case, go)
                 nontrivial = bool(info) and not all(mask) and (info["grad"] >= 1 or info["fun"] >= 3)  # noqa: PLR2004
-                col.case((n, mask, method, start_mode, nested), nontrivial=nontrivial,
+                col.case((n, mask, method, start_mode, nested, scaled_nested), nontrivial=nontrivial,
                          classes=(f"method={method}", f"n={n}", f"fixed={n - sum(mask)}", f"start={start_mode}",
-                                  "nested" if nested else "flat"), sample=case)
+                                  ("nested-scaled" if scaled_nested else "nested") if nested else "flat"), sample=case)
     col.extra["exhaustive"] = True
     return col
 
@@ -259,6 +268,7 @@ def hypothesis_shard(item: dict[str, Any]) -> Collector:
                     tiny = draw(st.sampled_from([5e-11, 3e-12, 2e-14]))
                     (case["x0"] if case["start"] is None else case["start"])[i] = -1.0 + tiny if pick == "lo" else 2.0 - tiny
             case["near_bound"] = True
+        case["keep_inner_best"] = draw(st.booleans())
         case["vtypes"] = [draw(st.sampled_from([1, 2])) for _ in range(n)] if draw(st.integers(0, 3)) == 0 else None  # REAL / INTEGER
         case["fail_perturbations"] = draw(st.integers(0, 5)) == 0 and method in ("slsqp", "l-bfgs-b", "scripted")
         case["budget"] = draw(st.integers(2, 7))
